@@ -1116,6 +1116,15 @@ inline bool Transport::setReadMode(SessionId sid, ReadMode mode)
       return true;
     }
     buf = bufIt->second;
+    if (buf->closed)
+    {
+      // The session's close has already been delivered: this is its tombstone. The
+      // leftover bytes stay readable through receiveSync (drain-before-EOF) but must
+      // never be handed to onData after onClose. Only drop the recorded mode (a
+      // setReadMode(Sync|Disabled) issued after the close may have re-recorded one).
+      _impl->readModes.erase(sid);
+      return true;
+    }
     // Construct the guard UNDER the fetch lock (its ctor sets flushing +
     // ++activeFlushes with no GC window) — increment and decrement owned by one
     // RAII object (L-2). It outlives this scope via the unique_ptr; its dtor
